@@ -19,6 +19,8 @@ checks = {
  "C19": ("exploration", "Server.GetData/Subscribe/WatchDeviations run against fake server streams under the seeded scheduler; Send failures at every index, stalls, slow consumers and client cancellation at every tick; bounded return after the stream ends, no panic, no goroutine left at bubble end (synctest).", "4 C19"),
  "C14": ("exploration", "GetData through Server.GetData with a fake stream for drawn path sets x 4 encodings x MAIN/INTENDED selections after histories with prefix-related keys and names; the answer is compared with the actual store content (direct dump) filtered element-wise; unknown paths must fail without data.", "4 C14"),
  "C15": ("exploration", "After histories and drift written into the CONFIG store the real DeviationMgr runs on the fake clock; the messages of one cycle on a fake WatchDeviations stream are compared as a multiset with a deviation model computed from dumps of both stores.", "4 C15"),
+ "C17": ("exploration", "Differential simulation: the same generated history over the constraint schema is applied to two simulated worlds differing only in Validation.DisableConcurrency; each transaction is validated as a dry run once sequentially and three times concurrently and the normalised error/warning sets must be identical (inputs seeded and replayable; goroutine interleavings inside Validate are the Go scheduler's). Thorough tier: the simulator is rebuilt with the Go race detector and any DATA RACE report of a worker is a violation (runtime monitoring arm, stated as such).", "4 C17"),
+ "C20": ("exploration", "Seeded structural mutation of peer messages delivered to the running simulated system: TransactionSet and GetData requests, device notifications and NETCONF get-config replies that are well-formed at the protobuf/XML level but arbitrary above it; oracle: every call returns within 60 simulated seconds, no panic in any goroutine (worker death = violation), no goroutine left at bubble end, and the stores and device are unchanged by rejected requests.", "4 C20"),
  "C16": ("exploration", "Seeded cooperative scheduler over yield points at every transaction-manager lock acquisition and timer event: Confirm/Cancel/expiry/competing Set interleavings on the real Datastore; exactly-once, agreement with client answers, process survival, porcupine linearizability against the slot model.", "4 C16"),
 }
 def hooks_commits():
